@@ -20,6 +20,17 @@ type Cell struct {
 	S int    `json:"s,omitempty"`
 }
 
+// MarshalJSON writes exactly the fields the tag has in the TLA+ vocabulary.
+func (c Cell) MarshalJSON() ([]byte, error) {
+	switch c.T {
+	case "blank", "absent":
+		return []byte(fmt.Sprintf(`{"t":%q}`, c.T)), nil
+	case "time":
+		return []byte(fmt.Sprintf(`{"t":"time","h":%d,"m":%d,"s":%d}`, c.H, c.M, c.S)), nil
+	}
+	return []byte(fmt.Sprintf(`{"t":%q,"v":%d}`, c.T, c.V)), nil
+}
+
 type Row map[string]Cell
 
 // Feed maps a file name to its rows. A file that is not a key is not in the archive.
@@ -48,6 +59,9 @@ func Text(col string, c Cell) string {
 		return ""
 	case "id":
 		p := PoolOf(col)
+		if c.V >= SynthBase {
+			return synth(c.V)
+		}
 		if c.V < 0 || c.V >= len(p) {
 			panic(fmt.Sprintf("harness: token %d out of range for column %s", c.V, col))
 		}
